@@ -23,6 +23,9 @@ ST_ = "magpylib/_src/style.py"
 TU_ = "magpylib/_src/display/traces_utility.py"
 TMF = FD + "field_BH_triangularmesh.py"
 MUTANTS = [
+    ("C18", "copy-keeps-parent-during-deepcopy", BG, "            self._parent = None\n            try:", "            try:", "red"),
+    ("C18", "copy-kwargs-applied-to-original", BG, "                setattr(obj_copy, k, v)", "                setattr(self, k, v)", "red"),
+    ("C18", "style-class-shares-on-deepcopy", "magpylib/_src/defaults/defaults_utility.py", "    def copy(self):", "    def __deepcopy__(self, memo):\n        return self\n\n    def copy(self):", "red"),
     ("C11", "copy-restores-parent-only-on-success", BG, "            try:\n                obj_copy = deepcopy(self)\n            finally:\n                self._parent = parent\n",
      "            obj_copy = deepcopy(self)\n            self._parent = parent\n", "red"),
     ("C04", "l2-sensor-rotation-forward", FWB, "Bpart_flat_rot = sens_orient.inv().apply(Bpart_flat)", "Bpart_flat_rot = sens_orient.apply(Bpart_flat)", "red"),
@@ -58,9 +61,9 @@ MUTANTS = [
     ("C20", "family-None-overrides-base", ST_, "                {k: v for k, v in family_dict.items() if v is not None}", "                family_dict", "red"),
     ("C20", "show-kwargs-after-defaults", ST_, "    style.update(**style_kwargs_specific, _match_properties=True)\n    style.update(**base_style_flat, _match_properties=False, _replace_None_only=True)", "    style.update(**base_style_flat, _match_properties=False, _replace_None_only=True)\n    style.update(**style_kwargs_specific, _match_properties=True, _replace_None_only=True)", "red"),
     ("C18", "copy-shallow-when-no-parent", BG, "        else:\n            obj_copy = deepcopy(self)", "        else:\n            from copy import copy as _shallow\n            obj_copy = _shallow(self)", "red"),
-    ("C18", "copy-parent-not-restored", BG, "            obj_copy = deepcopy(self)\n            self._parent = parent", "            obj_copy = deepcopy(self)", "red"),
+    ("C18", "copy-parent-not-restored", BG, "            finally:\n                self._parent = parent", "            finally:\n                pass", "red"),
     ("C18", "copy-kwargs-on-original", BG, "                setattr(obj_copy, k, v)", "                setattr(self, k, v)", "red"),
-    ("C18", "copy-keeps-parent", BG, "            parent = self._parent\n            self._parent = None\n            obj_copy = deepcopy(self)\n            self._parent = parent", "            obj_copy = deepcopy(self)", "red"),
+    ("C18", "copy-keeps-parent", BG, "            parent = self._parent\n            self._parent = None\n            try:\n                obj_copy = deepcopy(self)\n            finally:\n                self._parent = parent", "            obj_copy = deepcopy(self)", "red"),
     ("C18", "copy-label-not-iterated", BG, "                label = add_iteration_suffix(label)", "                pass", "red"),
     ("C15", "circle-axis-zero-radius-unguarded", FD + "field_BH_circle.py", "        mask4 = mask3 * ~mask1  # only relevant if not also case1", "        mask4 = mask3", "red"),
     ("C15", "circle-general-case-includes-axis", FD + "field_BH_circle.py", "    mask5 = ~np.logical_or(np.logical_or(mask1, mask2), mask3)", "    mask5 = ~np.logical_or(mask1, mask2)", "red"),
@@ -104,7 +107,7 @@ MUTANTS = [
     ("C04", "sensor-rot-forward", FWB, "            Bpart_flat_rot = sens_orient.inv().apply(Bpart_flat)", "            Bpart_flat_rot = sens_orient.apply(Bpart_flat)", "red"),
     ("C04", "sensor-repeat-count", FWB, "sens._orientation.as_quat(), pix_nums[sens_ind], axis=0", "sens._orientation.as_quat(), pix_nums[0], axis=0", "red"),
     ("C04", "pixel-agg-axis", FWB, "            B = pixel_agg_func(B, axis=tuple(range(3 - B.ndim, -1)))", "            B = pixel_agg_func(B, axis=tuple(range(4 - B.ndim, -1)))", "red"),
-    ("C04", "pixel-position-before-rotation", FWB, "                else r.apply(sens.pixel.reshape(-1, 3))\n            )\n            + p", "                else r.apply(sens.pixel.reshape(-1, 3) + p) - p\n            )\n            + p", "red"),
+    ("C04", "pixel-position-before-rotation", FWB, "                    else r.apply(sens.pixel.reshape(-1, 3))\n                )\n                + p", "                    else r.apply(sens.pixel.reshape(-1, 3) + p) - p\n                )\n                + p", "red"),
     ("C05", "collection-sum-drops-first", FWB, "                B[src_ind] = np.sum(B[src_ind : src_ind + col_len], axis=0)", "                B[src_ind] = np.sum(B[src_ind + 1 : src_ind + col_len], axis=0) if col_len > 1 else B[src_ind]", "red"),
     ("C05", "sumup-mean", FWB, "        B = np.sum(B, axis=0, keepdims=True)", "        B = np.mean(B, axis=0, keepdims=True)", "red"),
     ("C05", "cuboid-null-mask-ignores-z", FD + "field_BH_cuboid.py", "        (pol_x == 0) * (pol_y == 0) * (pol_z == 0)\n    )  # 2x faster than np.all()", "        (pol_x == 0) * (pol_y == 0)\n    )", "red"),
